@@ -66,8 +66,8 @@ type Param struct {
 
 type QueryParam struct {
 	Name string
-	Prim string   // native type, or
-	Ref  string   // local type name ( name_str form )
+	Prim string // native type, or
+	Ref  string // local type name ( name_str form )
 	Opt  bool
 }
 
@@ -81,9 +81,9 @@ type Stmt struct {
 	Ep     string   // call: endpoint name
 	Args   []string // call arguments (rendered as written)
 	Attrs  []Attr
-	Body   []*Stmt   // nested statements
-	Cases  []*Stmt   // oneof: each case is a Stmt{Kind:"case", Text: label, Body}
-	Quote  byte      // action written as a quoted string: '"' or '\''
+	Body   []*Stmt // nested statements
+	Cases  []*Stmt // oneof: each case is a Stmt{Kind:"case", Text: label, Body}
+	Quote  byte    // action written as a quoted string: '"' or '\''
 }
 
 type Endpoint struct {
@@ -97,8 +97,8 @@ type Endpoint struct {
 	Method string       // GET POST ...; "" for simple
 	Query  []QueryParam // method query params
 	// pubsub
-	Event  bool     // `<-> name`
-	SubOf  []string // subscription: publisher app parts (`Pub -> name`)
+	Event bool     // `<-> name`
+	SubOf []string // subscription: publisher app parts (`Pub -> name`)
 }
 
 // RestNode is one `/path/{var <: type}:` block holding methods and nested paths.
